@@ -80,6 +80,11 @@ class Immutable:
 
         raise AttributeError(f"'{self.__class__.__name__}' is immutable")
 
+    def __delattr__(self, name: str) -> None:
+        """Prevent mutability."""
+
+        raise AttributeError(f"'{self.__class__.__name__}' is immutable")
+
     def __repr__(self) -> str:  # pragma: no cover
         """Representation."""
 
